@@ -106,20 +106,23 @@ Definition right_segs (D : list Seg) (G : ExtQ) : list Seg :=
 (* segments_containing_R_goal: right-closed intervals first, left-closed ones if none contains the goal *)
 Definition contains_rc (G : ExtQ) (s : Seg) : bool := eltb (lo s) G && eleb G (hi s).
 Definition contains_lc (G : ExtQ) (s : Seg) : bool := eleb (lo s) G && eltb G (hi s).
-Definition containing (D : list Seg) (G : ExtQ) : list Seg :=
-  match filter (contains_rc G) D with
-  | [] => filter (contains_lc G) D
-  | c => c
-  end.
+Definition goal_mask (D : list Seg) (G : ExtQ) (s : Seg) : bool :=
+  if existsb (contains_rc G) D then contains_rc G s else contains_lc G s.
+(* fx = false: the code as it is.  fx = true: the repaired code (fixes/C12-five-segment-target-neg-inf.patch), which for
+   R_goal = -inf also takes the segments containing +inf (R = -inf and R = +inf are the same point of the diagram):
+   goal_segments | self._R_index.contains(np.inf) *)
+Definition is_neginf (G : ExtQ) : bool := match G with NegInf => true | _ => false end.
+Definition containing (fx : bool) (D : list Seg) (G : ExtQ) : list Seg :=
+  filter (fun s => goal_mask D G s || (is_neginf G && fx && contains_rc PosInf s)) D.
 
 (* HaighDiagram.transform: interval_boundary = interval.right if interval.right < 1.0 else interval.left *)
 Definition left_boundary (s : Seg) : ExtQ := if eltb (hi s) (Fin 1) then hi s else lo s.
 
 (* the sequence of (segment, local goal) pairs that HaighDiagram.transform walks through *)
-Definition schedule (D : list Seg) (G : ExtQ) : list (Seg * ExtQ) :=
+Definition schedule (fx : bool) (D : list Seg) (G : ExtQ) : list (Seg * ExtQ) :=
   map (fun s => (s, left_boundary s)) (left_segs D G)
   ++ map (fun s => (s, lo s)) (right_segs D G)
-  ++ map (fun s => (s, G)) (containing D G).
+  ++ map (fun s => (s, G)) (containing fx D G).
 
 (* ------------------------------------------------------------------ transform_cycles_in_interval, one cycle *)
 (* push_over_flipping_point (b = the local R_goal as passed in, before 1.0 is replaced by -inf) *)
@@ -158,8 +161,8 @@ Definition step (c : Cyc) (sb : Seg * ExtQ) : Cyc :=
   if in_test s b (snd c) then (trans_amp (slope s) (local_goal b) c, local_goal b) else c.
 
 (* all rows of transformed_cycles after the three loops of HaighDiagram.transform *)
-Definition transform_state (D : list Seg) (G : ExtQ) (c : Cyc) : Cyc :=
-  fold_left step (schedule D G) c.
+Definition transform_state (fx : bool) (D : list Seg) (G : ExtQ) (c : Cyc) : Cyc :=
+  fold_left step (schedule fx D G) c.
 
 Definition goal_accepted (G : ExtQ) : bool :=
   match G with
@@ -177,9 +180,9 @@ Definition result_mean (c : Cyc) : Q :=
   | _ => fst c * -1
   end.
 
-Definition transform (D : list Seg) (G : ExtQ) (c : Cyc) : option (Q * Q) :=
+Definition transform (fx : bool) (D : list Seg) (G : ExtQ) (c : Cyc) : option (Q * Q) :=
   if goal_accepted G then
-    let c' := transform_state D G c in Some (result_amp c', result_mean c')
+    let c' := transform_state fx D G c in Some (result_amp c', result_mean c')
   else None.
 
 (* ------------------------------------------------------------------ MeanstressTransformMatrix._rebin_results *)
